@@ -154,21 +154,26 @@ def annClears (q : Quirks) (a : AList Str Str) : List Item :=
 
 def annSets (a : AList Str Str) : List Item := (annSet a).map fun (k, _) => .annotation k
 
+/-- the annotation keys whose entry `adjustAnnotations` deletes from the container view:
+    every key marked for removal (before fix 2 only those set again in the same response) -/
+def annViewDel (q : Quirks) (a : AList Str Str) : List Str :=
+  if q.annLoneKeeps then (annDel a).filter fun k => (annSet a).any fun (k', _) => k' = k else annDel a
+
 def annData (q : Quirks) (st : State) (a : AList Str Str) : State :=
   let del := annDel a
   let set := annSet a
   let lone := del.filter fun k => !(set.any fun (k', _) => k' = k)
   -- keys removed and set again
   let both := set.filter fun (k, _) => del.contains k
-  let view1 := both.foldl (fun m (k, _) => AList.erase m k) st.view.annotations
+  -- the view is a Go map: deleting the removed keys and then assigning the set ones gives the
+  -- same map as the Go order (delete-then-assign per re-set key, lone deletions last)
+  let view' := set.foldl (fun m (k, v) => AList.insert m k v)
+    ((annViewDel q a).foldl (fun m k => AList.erase m k) st.view.annotations)
   let reply1 := both.foldl (fun m (k, _) => AList.insert m (markForRemoval k) []) st.reply.annotations
-  let view2 := set.foldl (fun m (k, v) => AList.insert m k v) view1
   let reply2 := set.foldl (fun m (k, v) => AList.insert m k v) reply1
   let reply3 := lone.foldl (fun m k => AList.insert m (markForRemoval k) []) reply2
-  let (view4, reply4) :=
-    if q.annLoneKeeps then (view2, reply3)
-    else (lone.foldl (fun m k => AList.erase m k) view2, lone.foldl (fun m k => AList.erase m k) reply3)
-  { st with view := { st.view with annotations := view4 }, reply := { st.reply with annotations := reply4 } }
+  let reply4 := if q.annLoneKeeps then reply3 else lone.foldl (fun m k => AList.erase m k) reply3
+  { st with view := { st.view with annotations := view' }, reply := { st.reply with annotations := reply4 } }
 
 /-! ### Keyed list families: mounts, devices, environment -/
 
